@@ -172,6 +172,17 @@ def main(tier, seed):
             sc = iofam.weird_chart(rng)
             stats['weird'] += 1
             one_chart(sc, False, str(i))
+    # regression: deeply nested statecharts (the emitter must not fold lines; fixed in /repo, see known_findings.json)
+    from sismic.model import BasicState, CompoundState, Statechart, Transition
+    for depth in (38, 45, 70):
+        sc = Statechart('deep%d' % depth)
+        sc.add_state(CompoundState('s0', initial='s1'), None)
+        for i in range(1, depth):
+            st = CompoundState('s%d' % i, initial='s%d' % (i + 1), on_entry='x = 1') if i < depth - 1 else BasicState('s%d' % i, on_entry='x = 1')
+            sc.add_state(st, 's%d' % (i - 1))
+        sc.add_transition(Transition('s%d' % (depth - 1), 's1', event='e', guard=' and '.join('y != %d' % k for k in range(30))))
+        stats['deep_chains'] = stats.get('deep_chains', 0) + 1
+        one_chart(sc, False, 'deep%d' % depth)
     # shipped charts
     import glob
     import sismic.io
